@@ -90,6 +90,11 @@ func solve(dir string, query string, timeoutS int, thorough bool, wantSat bool) 
 		return solveResult{Status: "error", Model: err.Error()}
 	}
 	res := solveResult{Status: "unknown", All: map[string]string{}}
+	if wantSat {
+		// feasibility (cover) queries only need "not unsat": one solver, short limit
+		st, _, dt := runSolver(solvers[0], file, 2, false)
+		return solveResult{Status: st, Solver: solvers[0].Name, Time: dt, All: map[string]string{solvers[0].Name: st}}
+	}
 	for _, s := range solvers {
 		st, out, dt := runSolver(s, file, timeoutS, true)
 		res.All[s.Name] = fmt.Sprintf("%s %.2fs", st, dt)
